@@ -46,6 +46,18 @@ impl TreeGen {
                 return PG::Neq(a, self.small(r, 1));
             }
         }
+        // lists of DIFFERENT written length, one of them with an open tail (`[a | t] != [b, c, d]`): the tail can be bound
+        // to a list that makes them coincide (by a later `==` of the two sides: the `prev` mechanism above) — a
+        // disequality must not be decided by comparing the written lengths (seeded change C14-d)
+        if r.chance(1, 10) {
+            let n = 1 + r.below(2);
+            let heads: Vec<T> = (0..n).map(|_| self.small(r, 0)).collect();
+            let tail = self.var(r);
+            let m = n + 1 + r.below(2);
+            let other: Vec<T> = (0..m).map(|_| self.small(r, 0)).collect();
+            let (a, b) = (T::improper(heads, tail), T::list(other));
+            return if r.chance(1, 2) { PG::Neq(a, b) } else { PG::Neq(b, a) };
+        }
         // multi-pair disequalities whose pairs share variables ([a, b] != [c, c], [x, y] != [y, 1]):
         // re-running them after later equalities must treat the pairs as ONE conjunction
         if r.chance(1, 6) {
